@@ -164,6 +164,23 @@ def run(ctx):
     for pw, wk in (('right passphrase', False), ('wrong passphrase', True), ('', True), ('right passphrase ', True), ('Right passphrase', True)):
         o, p = attempt(pgpy, blobP, lambda mm, pw=pw: mm.decrypt(pw))
         ev.append({'k': 'tamper', 'action': 'passphrase %r' % pw, 'region': '-', 'recipient': 'pw', 'cipher': 9, 'outcome': o, 'plain': p, 'originals': origP, 'wrongkey': wk, 'size': 20})
+    # histories on ONE message object: a successful decryption must not make later wrong passphrases acceptable, and vice versa
+    def on_same_object(obj, seq, label):
+        for pw_, wk_ in seq:
+            with warnings.catch_warnings():
+                warnings.simplefilter('ignore')
+                try:
+                    d_ = obj.decrypt(pw_)
+                    c_ = d_.message
+                    o_, p_ = 'returned', sha(c_.encode('utf-8') if isinstance(c_, str) else bytes(c_))
+                except Exception:
+                    o_, p_ = 'raised', ''
+            ev.append({'k': 'tamper', 'action': 'passphrase %r on the same object (%s)' % (pw_, label), 'region': '-', 'recipient': 'pw', 'cipher': 9, 'outcome': o_, 'plain': p_,
+                       'originals': origP, 'wrongkey': wk_, 'size': 20, 'must_succeed': not wk_})
+    on_same_object(pgpy.PGPMessage.from_blob(blobP), [('right passphrase', False), ('wrong passphrase', True), ('right passphrase', False)], 'parsed, right-wrong-right')
+    on_same_object(pgpy.PGPMessage.from_blob(blobP), [('wrong passphrase', True), ('right passphrase', False), ('', True)], 'parsed, wrong-right-empty')
+    fresh_enc = pgpy.PGPMessage.new(b'passphrase protected', compression=CompressionAlgorithm.Uncompressed, format='b').encrypt('right passphrase', cipher=SymmetricKeyAlgorithm.AES256)
+    on_same_object(fresh_enc, [('wrong passphrase', True), ('right passphrase', False)], 'object returned by encrypt()')
     cnt = 0
     for action, region, blob in attacks(ctx, blobP, blobP, False):
         if action == 'flip' and cnt % (6 if ctx.quick else 2) != 0:
